@@ -292,8 +292,34 @@ def classify(tree) -> tuple[bool, bool, bool]:
     return has_or, has_bare, nontriv
 
 
-def check_expr(expr: str, col: core.Collector, source: str = "grammar"):
+def respaced(expr: str):
+    """variants of `expr` that differ only in whitespace: inside string constants (a different
+    expression - the constant changes) and between tokens (the same expression)"""
+    out = []
+    if "|" in expr:
+        out.append(expr.replace(" | ", "|"))
+        out.append(expr.replace("|", " | "))
+        out.append(expr.replace("|", "  |  "))
+    if "'" in expr or '"' in expr:
+        out.append(expr.replace("a|b", "a | b").replace("Foo | None", "Foo|None").replace("m|x[", "m | x ["))
+    out.append(expr.replace(", ", ",").replace("[", "[ "))
+    return [e for e in dict.fromkeys(out) if e != expr]
+
+
+def check_expr(expr: str, col: core.Collector, source: str = "grammar", _variants=True):
+    if _variants and source != "replay-variant":
+        _check_one(expr, col, source, clear=True)
+        # the same process then sees whitespace variants: results must not depend on what was transformed before
+        for v in respaced(expr)[:3]:
+            _check_one(v, col, "respaced", clear=False, history=[expr])
+        return
+    _check_one(expr, col, source, clear=True)
+
+
+def _check_one(expr: str, col: core.Collector, source: str, clear: bool, history=None):
     case = {"expr": expr}
+    if history:
+        case["history"] = history
     try:
         tree = ast.parse(expr, mode="eval")
     except (SyntaxError, ValueError, RecursionError, MemoryError):
@@ -309,7 +335,8 @@ def check_expr(expr: str, col: core.Collector, source: str = "grammar"):
         col.label("has_bitor")
     col.sample(expr) if nontriv else None
 
-    transform.cache_clear()
+    if clear:
+        transform.cache_clear()
     kind, out = tl.call(transform, expr)
     if kind == "exc":
         col.violation("transform-raises", case, f"{tl.exc_name(out)}: {out}", bucket=tl.exc_name(out))
@@ -445,7 +472,7 @@ def operator_table():
 # --------------------------------------------------------------------------------------
 
 def plan(tier, seed):
-    n = 2500 if tier == "quick" else 40000
+    n = 1200 if tier == "quick" else 25000
     shards = [{"kind": "table"}]
     for k in range(16):
         shards.append({"kind": "ann" if k % 2 == 0 else "expr", "seed": seed * 1000 + k, "n": n})
@@ -463,4 +490,10 @@ def run_shard(shard, col):
 
 
 def replay(clause, case, col):
+    if case.get("history"):
+        transform.cache_clear()
+        for h in case["history"]:
+            tl.call(transform, h)
+        _check_one(case["expr"], col, "replay", clear=False, history=case["history"])
+        return
     check_expr(case["expr"], col, "replay-ann" if clause == "same-structure-real" else "replay")
